@@ -8,9 +8,13 @@ the `file_data` and `segment_metadata` setters, `pack`, `unpack`, `packet_len`, 
 `get_max_file_seg_len_for_max_packet_len_and_pdu_cfg`, on top of the header model.
 
 A `FileDataPdu` object is the pair (header, params). Setters are state transitions
-(`putX` = the assignment the setter performs first, `recalc` = `_calculate_pdu_data_field_len`,
-which can raise `ValueError` through the header's length setter *after* the assignment has been
-made — `Pdu.step` keeps that state, as the code does).
+(`putX` = the assignment the setter performs, `recalc` = `_calculate_pdu_data_field_len`, which can
+raise `ValueError` through the header's length setter). When the length is refused the setter
+restores the old attribute value and re-raises, and the `segment_metadata` setter touches the
+header flag only after the length check: a refused setter call leaves the whole object unchanged
+(`Pdu.step` returns the old object together with the error). On an accepted call the order
+"flag, then length" (`putSegMeta` then `recalc`) and the code's order "length, then flag" give the
+same object, because `calcLen` does not read the flag.
 
 Arithmetic normal form: `state << 6 | len` with `len ≤ 63` is `state * 64 + len`;
 `(b & 0xC0) >> 6` is `b / 64 % 4`; `b & 0x3F` is `b % 64`.
@@ -68,11 +72,11 @@ def Pdu.recalc (p : Pdu) : Py Pdu := do
 
 /-! ## setters as state transitions -/
 
-/-- first statement of the `file_data` setter -/
+/-- the assignment of the `file_data` setter -/
 def Pdu.putFileData (p : Pdu) (d : Bytes) : Pdu :=
   { p with params := { p.params with fileData := d } }
 
-/-- first statements of the `segment_metadata` setter (params, then the header flag) -/
+/-- the assignments of the `segment_metadata` setter (params and the header flag) -/
 def Pdu.putSegMeta (p : Pdu) (m : Option SegMeta) : Pdu :=
   { header := { p.header with segMeta := if m.isSome then 1 else 0 },
     params := { p.params with segMeta := m } }
@@ -93,12 +97,12 @@ def Pdu.put (p : Pdu) : Setter → Pdu
   | .fileData d => p.putFileData d
   | .segMeta m => p.putSegMeta m
 
-/-- one setter call: the new object state and the exception raised, if any. When the length
-    setter refuses, the assignment has already happened and the cached length is the old one. -/
+/-- one setter call: the object state after the call and the exception raised, if any. When the
+    length setter refuses, the setter rolls the assignment back: the object is unchanged. -/
 def Pdu.step (p : Pdu) (s : Setter) : Pdu × Option Err :=
   match (p.put s).recalc with
   | .ok q => (q, none)
-  | .error e => (p.put s, some e)
+  | .error e => (p, some e)
 
 /-- a whole sequence of setter calls: every intermediate state with the outcome of the call -/
 def Pdu.trace (p : Pdu) : List Setter → List (Pdu × Option Err)
